@@ -36,18 +36,23 @@ Winner(F, v) ==
   LET C == {i \in F : tl[i].var = v}
   IN IF C = {} THEN 0 ELSE CHOOSE i \in C : \A j \in C : i = j \/ Later(i, j)
 
+\* the last tick of a run is cut at the end of the run (forced completion): it
+\* fires what is due at its start like any other tick, its effect and the clock
+\* increment land at the end of the run
+StepLen(clk, s, r) == IF clk + s <= r THEN s ELSE r - clk
 Tick ==
-  /\ clock + ts <= run
+  /\ clock < run
   /\ LET F == {i \in DOMAIN tl : i \notin fired /\ tl[i].t <= clock}
          nv == [v \in TVars |-> IF Winner(F, v) = 0 THEN vals[v] ELSE Winner(F, v)]
+         st == StepLen(clock, ts, run)
      IN /\ fired' = fired \cup F
         /\ firedAt' = [i \in DOMAIN tl |-> IF i \in F THEN (clock \div ts) + 1 ELSE firedAt[i]]
         /\ vals' = nv
-        /\ clock' = clock + ts
-        /\ rows' = Append(rows, [time |-> clock + ts, vals |-> nv])
+        /\ clock' = clock + st
+        /\ rows' = Append(rows, [time |-> clock + st, vals |-> nv])
   /\ UNCHANGED <<tl, ts, run>>
 
-Done == clock + ts > run
+Done == clock >= run
 Next == Tick \/ (Done /\ UNCHANGED vars)
 
 \* each event fires exactly once, at the first tick whose clock has reached it
@@ -73,10 +78,11 @@ WinnerT(T, F, v) ==
   IN IF C = {} THEN 0 ELSE CHOOSE i \in C : \A j \in C : i = j \/ LaterT(T, i, j)
 RECURSIVE RunFrom(_, _, _, _, _, _)
 RunFrom(T, s, r, clk, Fd, V) ==
-  IF clk + s > r THEN <<>>
+  IF clk >= r THEN <<>>
   ELSE LET F == {i \in DOMAIN T : i \notin Fd /\ T[i].t <= clk}
            nv == [v \in TVars |-> IF WinnerT(T, F, v) = 0 THEN V[v] ELSE WinnerT(T, F, v)]
-       IN <<[time |-> clk + s, vals |-> nv]>> \o RunFrom(T, s, r, clk + s, Fd \cup F, nv)
+           st == StepLen(clk, s, r)
+       IN <<[time |-> clk + st, vals |-> nv]>> \o RunFrom(T, s, r, clk + st, Fd \cup F, nv)
 FullRows(T, s, r) ==
   <<[time |-> 0, vals |-> [v \in TVars |-> 0]]>> \o RunFrom(T, s, r, 0, {}, [v \in TVars |-> 0])
 RowsAgree == rows = SubSeq(FullRows(tl, ts, run), 1, Len(rows))
